@@ -353,3 +353,53 @@ def shared_mutable_state(prog, modules=None):
                     if d:
                         out.append((fi, n, f"{d}: `{norm(n)[:50]}` mutates it inside {fi.qn}"))
     return out
+
+
+def cached_result_mutations(prog, eff=None):
+    """A function memoised by functools.lru_cache / functools.cache hands every caller the *same* object.  A caller that changes that object in place -- an augmented
+    assignment on the name it bound the result to, a subscript store, a mutating method, or passing it to a function whose effect summary mutates that parameter --
+    changes what every later call returns: hidden state between calls.  Returns [(caller FuncInfo, node, description)]."""
+    from .effects import Effects, Resolver
+    eff = eff or Effects(prog)
+    res = Resolver(prog)
+    cached = {}
+    for qn, fi in prog.functions.items():
+        for d in getattr(fi.node, "decorator_list", []):
+            nm = norm(d.func) if isinstance(d, ast.Call) else norm(d)
+            if nm in ("functools.lru_cache", "lru_cache", "functools.cache", "cache"):
+                cached[qn] = fi
+    out = []
+    if not cached:
+        return out
+    MUTATORS = {"sort", "append", "extend", "insert", "pop", "remove", "clear", "update", "setdefault", "fill", "resize", "itemset", "put", "partition", "reverse"}
+    for g in prog.functions.values():
+        names = {}
+        for n in own_nodes(g.node):
+            if isinstance(n, ast.Assign) and len(n.targets) == 1 and isinstance(n.targets[0], ast.Name) and isinstance(n.value, ast.Call):
+                for c in res.resolve_call(n.value, g):
+                    if c.qn in cached:
+                        names[n.targets[0].id] = c
+        if not names:
+            continue
+        for n in own_nodes(g.node):
+            hit = None
+            if isinstance(n, ast.AugAssign) and isinstance(n.target, ast.Name) and n.target.id in names:
+                hit = (n.target.id, f"`{norm(n)[:50]}` works in place on arrays")
+            elif isinstance(n, (ast.Assign, ast.AugAssign)) and any(isinstance(t, ast.Subscript) and isinstance(t.value, ast.Name) and t.value.id in names for t in (n.targets if isinstance(n, ast.Assign) else [n.target])):
+                t = next(t for t in (n.targets if isinstance(n, ast.Assign) else [n.target]) if isinstance(t, ast.Subscript) and isinstance(t.value, ast.Name) and t.value.id in names)
+                hit = (t.value.id, f"`{norm(n)[:50]}` stores into it")
+            elif isinstance(n, ast.Call) and isinstance(n.func, ast.Attribute) and isinstance(n.func.value, ast.Name) and n.func.value.id in names and n.func.attr in MUTATORS:
+                hit = (n.func.value.id, f"`{norm(n)[:50]}` changes it in place")
+            elif isinstance(n, ast.Call):
+                for c in res.resolve_call(n, g):
+                    params = c.params[1:] if (c.is_method if isinstance(c.is_method, bool) else c.is_method()) and isinstance(n.func, ast.Attribute) else c.params
+                    for i, a in enumerate(n.args):
+                        if isinstance(a, ast.Name) and a.id in names and i < len(params) and params[i] in eff.sum[c.qn].mut:
+                            hit = (a.id, f"`{norm(n)[:50]}` hands it to {c.name}, which changes its parameter `{params[i]}` in place")
+                    for k in n.keywords:
+                        if k.arg and isinstance(k.value, ast.Name) and k.value.id in names and k.arg in eff.sum[c.qn].mut:
+                            hit = (k.value.id, f"`{norm(n)[:50]}` hands it to {c.name}, which changes its parameter `{k.arg}` in place")
+            if hit:
+                f0 = names[hit[0]]
+                out.append((g, n, f"the object returned by the memoised {f0.qn} (functools cache: one object for every call with the same arguments) is changed in place: {hit[1]}"))
+    return out
